@@ -192,9 +192,11 @@ class Worker:
         self.proc = None
         self.spawns = 0
 
-    def start(self):
+    def start(self, extra_env=None):
         r, w = os.pipe()
         env = dict(GOENV)
+        if extra_env:
+            env.update(extra_env)
         self.racelog = os.path.join(self.workdir, "race-%d-%d" % (self.idx, self.spawns))
         env["GORACE"] = "log_path=%s halt_on_error=0 history_size=3 atexit_sleep_ms=0" % self.racelog
         self.errf = open(os.path.join(self.workdir, "stderr-%d" % self.idx), "ab")
@@ -225,9 +227,9 @@ class Worker:
 
     def run(self, job, timeout):
         """Returns the result dict. Worker death / timeouts are reported in the dict, never raised."""
-        if self.proc is None or self.proc.poll() is not None:
+        if self.proc is None or self.proc.poll() is not None or job.get("_env"):
             self.stop()
-            self.start()
+            self.start(job.get("_env"))
         timeout = job.get("_timeout", timeout)
         line = json.dumps({k: v for k, v in job.items() if not k.startswith("_")}) + "\n"
         result = {}
